@@ -58,8 +58,8 @@ type ServerPlan struct {
 	S2C        rt.PipeConfig        `json:"s2c"`
 	CloseAtEnd bool                 `json:"close_at_end"` // the client closes its write side after the script (else it just stops sending, then closes after a long while)
 	// CancelMs: the context passed to RunATPServer is cancelled (-1 never, 0 before the server starts, n after n fake ms)
-	CancelMs int `json:"cancel_ms"`
-	Features   map[string]bool      `json:"features"`
+	CancelMs int             `json:"cancel_ms"`
+	Features map[string]bool `json:"features"`
 }
 
 // ServerOpts selects grammar features.
